@@ -102,6 +102,60 @@ func Builders(thorough bool) []Builder {
 			})
 		}
 	}
+	// packets of 64 KiB and more, up to the largest the length field can express (262144 octets)
+	for _, e := range []int{65508, 65512, 65536, 262144 - 28} {
+		e := e
+		add("SenderReport", fmt.Sprintf("big:reports=0,ext=%d", e), func() rtcp.Packet {
+			t := &tagger{}
+			return &rtcp.SenderReport{SSRC: t.u32(), NTPTime: t.u64(), RTPTime: t.u32(), PacketCount: t.u32(), OctetCount: t.u32(), ProfileExtensions: t.bytes(e)}
+		})
+	}
+	for _, e := range []int{65528, 65532, 65536, 262144 - 8 - 24} {
+		e := e
+		add("ReceiverReport", fmt.Sprintf("big:reports=1,ext=%d", e), func() rtcp.Packet {
+			t := &tagger{}
+			return &rtcp.ReceiverReport{SSRC: t.u32(), Reports: []rtcp.ReceptionReport{t.report()}, ProfileExtensions: t.bytes(e)}
+		})
+	}
+	for _, ni := range []int{9, 32} {
+		ni := ni
+		add("SourceDescription", fmt.Sprintf("big:chunks=31,items=%dx255", ni), func() rtcp.Packet {
+			t := &tagger{}
+			p := &rtcp.SourceDescription{}
+			for c := 0; c < 31; c++ {
+				ch := rtcp.SourceDescriptionChunk{Source: t.u32()}
+				for i := 0; i < ni; i++ {
+					ch.Items = append(ch.Items, rtcp.SourceDescriptionItem{Type: rtcp.SDESType(1 + (c+i)%8), Text: t.text(255)})
+				}
+				p.Chunks = append(p.Chunks, ch)
+			}
+			return p
+		})
+	}
+	for _, l := range []int{65519, 65520, 65523, 65524, 65528, 65536, 262132} {
+		l := l
+		add("ApplicationDefined", fmt.Sprintf("big:data=%d", l), func() rtcp.Packet {
+			t := &tagger{}
+			return &rtcp.ApplicationDefined{SubType: 0x15, SSRC: t.u32(), Name: "NaMe", Data: t.bytes(l)}
+		})
+	}
+	for _, nb := range []int{2, 7} {
+		nb := nb
+		add("CCFeedbackReport", fmt.Sprintf("big:blocks=%d,metrics=16384", nb), func() rtcp.Packet {
+			t := &tagger{}
+			p := &rtcp.CCFeedbackReport{SenderSSRC: t.u32(), ReportTimestamp: t.u32()}
+			for b := 0; b < nb; b++ {
+				blk := rtcp.CCFeedbackReportBlock{MediaSSRC: t.u32(), BeginSequence: uint16(1000 * b), MetricBlocks: make([]rtcp.CCFeedbackMetricBlock, 16384)}
+				for m := range blk.MetricBlocks {
+					if (m+b)%3 != 1 {
+						blk.MetricBlocks[m] = rtcp.CCFeedbackMetricBlock{Received: true, ECN: rtcp.ECN(m & 3), ArrivalTimeOffset: uint16(m*7) & 0x1fff}
+					}
+				}
+				p.ReportBlocks = append(p.ReportBlocks, blk)
+			}
+			return p
+		})
+	}
 	// RR
 	for _, n := range counts {
 		for _, e := range ints(thorough, []int{0, 1, 2, 3, 4, 5, 8, 9}, []int{0, 1, 2, 3, 4, 5, 6, 7, 8, 9, 10, 11, 12, 13, 14, 15, 16, 17}) {
@@ -391,6 +445,12 @@ func compoundShapes() []func() rtcp.CompoundPacket {
 			return rtcp.CompoundPacket{rr(t), rr(t), cnameSDES(t), &rtcp.PictureLossIndication{SenderSSRC: t.u32(), MediaSSRC: t.u32()},
 				&rtcp.TransportLayerNack{SenderSSRC: t.u32(), MediaSSRC: t.u32(), Nacks: []rtcp.NackPair{{PacketID: t.u16(), LostPackets: 5}}},
 				&rtcp.ReceiverEstimatedMaximumBitrate{SenderSSRC: t.u32(), Bitrate: 262144, SSRCs: []uint32{t.u32()}}}
+		},
+		func() rtcp.CompoundPacket {
+			t := &tagger{}
+			// members of 64 KiB and more inside a compound
+			return rtcp.CompoundPacket{rr(t), cnameSDES(t), &rtcp.ApplicationDefined{SubType: 1, SSRC: t.u32(), Name: "bigA", Data: t.bytes(65000)},
+				&rtcp.TransportLayerNack{SenderSSRC: t.u32(), MediaSSRC: t.u32(), Nacks: make([]rtcp.NackPair, 17000)}, &rtcp.PictureLossIndication{SenderSSRC: t.u32(), MediaSSRC: t.u32()}}
 		},
 		func() rtcp.CompoundPacket {
 			t := &tagger{}
